@@ -928,8 +928,14 @@ func (vlog *valueLog) write(reqs []*request) error {
 			e := b.Entries[j]
 			valueSizes = append(valueSizes, int64(len(e.Value)))
 			if e.skipVlogAndSetThreshold(vlog.db.valueThreshold()) {
+				if y.VerifEnabled {
+					y.VerifEvent("vlog.decide", e.Key, true, e.valThreshold, len(e.Value))
+				}
 				b.Ptrs = append(b.Ptrs, valuePointer{})
 				continue
+			}
+			if y.VerifEnabled {
+				y.VerifEvent("vlog.decide", e.Key, false, e.valThreshold, len(e.Value))
 			}
 			var p valuePointer
 
